@@ -651,7 +651,7 @@ func runEffects(eng *Engine, prop string) []*EffObl {
 	case "C20":
 		return g.globalWriteObligations(libScope(eng))
 	case "C05":
-		return append(g.recoverObligations(libScope(eng)), g.deadContextObligations()...)
+		return append(append(g.recoverObligations(libScope(eng)), g.deadContextObligations()...), g.meterObligations(libScope(eng))...)
 	case "C04":
 		return append(append(g.compilePanicObligations(), g.arityObligations()...), g.stableObligations()...)
 	}
